@@ -26,6 +26,7 @@ import (
 	clienttypes "github.com/cosmos/ibc-go/v7/modules/core/02-client/types"
 	"github.com/ethereum/go-ethereum/common"
 
+	lvtypes "github.com/haqq-network/haqq/x/liquidvesting/types"
 	ucdaotypes "github.com/haqq-network/haqq/x/ucdao/types"
 	vtypes "github.com/haqq-network/haqq/x/vesting/types"
 
@@ -129,6 +130,12 @@ func newDriver(tier string, sc schedule) *driver {
 		panic(err)
 	}
 	if err := w.OpenLocalhostChannels(w.Ctx()); err != nil {
+		panic(err)
+	}
+	lp := w.App.LiquidVestingKeeper.GetParams(w.Ctx())
+	lp.MinimumLiquidationAmount = sdkmath.NewInt(1)
+	lp.EnableLiquidVesting = true
+	if err := w.App.LiquidVestingKeeper.SetParams(w.Ctx(), lp); err != nil {
 		panic(err)
 	}
 	// forwarding contract: sends its whole call value on to R
@@ -520,6 +527,43 @@ func (d *driver) ops(w *world.World, depth int, path []string) []engine.Op {
 		res.Nontrivial[fmt.Sprintf("%s|grant-with-stake|%d", d.sc.name, d.now()-d.t0)] = true
 		return "ok", nm
 	})
+	// part of the locked (fully vested) coins is liquidated: they leave the account by design; what
+	// stays must keep its original unlock time.  Modelled where exactly one lockup event is still to
+	// come (the general split over several periods is C11's subject)
+	add("liquidate(half-of-locked)", func(p []string, res *engine.Result, m model) (string, model) {
+		if _, isV := d.tracked(m); !isV {
+			return "skip", m
+		}
+		t := d.now()
+		orig := sdkmath.NewIntFromBigInt(m.vest.Total().Get(world.Denom))
+		vested := sdkmath.NewIntFromBigInt(m.vest.Read(t).Get(world.Denom))
+		upcoming := 0
+		for _, e := range m.lock.Events {
+			if e.T > t {
+				upcoming++
+			}
+		}
+		stillLocked := orig.Sub(sdkmath.NewIntFromBigInt(m.lock.Read(t).Get(world.Denom)))
+		l := stillLocked.QuoRaw(2)
+		if !vested.Equal(orig) || upcoming != 1 || !l.IsPositive() || !m.delegated.IsZero() {
+			return "skip", m
+		}
+		lbz, err := w.CosmosTx(w.Ctx(), world.CosmosSpec{Key: world.Key(vKeyIdx), Gas: 10000000, Msgs: []sdk.Msg{lvtypes.NewMsgLiquidate(d.V, d.V, sdk.NewCoin(world.Denom, l))}})
+		if err != nil {
+			panic(err)
+		}
+		r := w.Deliver(lbz)
+		if r.Code != 0 {
+			res.Counters["liquidate-rejected:"+engine.ErrClass(fmt.Errorf("%s", r.Log))]++
+			return "rejected", m
+		}
+		nm := m
+		cap := rm.One(world.Denom, orig.Sub(l).Int64())
+		nm.vest = rm.CapSched(m.vest, cap)
+		nm.lock = rm.CapSched(m.lock, cap)
+		res.Nontrivial[fmt.Sprintf("%s|liquidate|%d", d.sc.name, d.now()-d.t0)] = true
+		return "ok", nm
+	})
 	add("clawback", func(p []string, res *engine.Result, m model) (string, model) {
 		fbz, err := w.CosmosTx(w.Ctx(), world.CosmosSpec{Key: w.Keys[1], Msgs: []sdk.Msg{vtypes.NewMsgClawback(d.F, d.V, nil)}, Gas: 2000000})
 		if err != nil {
@@ -560,6 +604,105 @@ func (d *driver) ops(w *world.World, depth int, path []string) []engine.Op {
 	return out
 }
 
+// ---- two denominations with crossed schedules ----------------------------------------------------
+//
+// One grant in two denominations whose lockup and vesting run in opposite order: aISLM is unlocked
+// at once and vests in four steps, atest vests at once and is locked for much longer.  At any time
+// one denomination has unlocked > vested and the other vested > unlocked; the locked amount is
+// max(original - min(vested, unlocked), unvested) PER DENOMINATION.  All sequences <= depth over
+// time jumps and sends of either denomination with the usual amount classes.
+func twoDenomWorker(res *engine.Result, tier string, shard, n int) {
+	w := world.New(world.Options{NumAccounts: 4, ExtraCoins: sdk.NewCoins(sdk.NewInt64Coin("atest", 1000000))})
+	F, R := w.Addrs[1], w.Addrs[2]
+	V := sdk.AccAddress(world.Key(vKeyIdx + 1).PubKey().Address().Bytes())
+	t0 := w.Header.Time.Unix()
+	lockPs := []rm.Period{{Len: 1, A: rm.One(world.Denom, 1000)}, {Len: 9999, A: rm.One("atest", 1000)}}
+	vestPs := []rm.Period{{Len: 1, A: rm.One("atest", 1000)}, {Len: 999, A: rm.One(world.Denom, 250)}, {Len: 1000, A: rm.One(world.Denom, 250)},
+		{Len: 1000, A: rm.One(world.Denom, 250)}, {Len: 1000, A: rm.One(world.Denom, 250)}}
+	conv := func(ps []rm.Period) sdkvesting.Periods {
+		var out sdkvesting.Periods
+		for _, p := range ps {
+			cs := sdk.NewCoins()
+			for d, v := range p.A {
+				cs = cs.Add(sdk.NewCoin(d, sdkmath.NewIntFromBigInt(v)))
+			}
+			out = append(out, sdkvesting.Period{Length: p.Len, Amount: cs})
+		}
+		return out
+	}
+	if _, err := w.RunMsg(w.Ctx(), vtypes.NewMsgCreateClawbackVestingAccount(F, V, time.Unix(t0, 0).UTC(), conv(lockPs), conv(vestPs), false)); err != nil {
+		panic(err)
+	}
+	for _, c := range []sdk.Coin{sdk.NewInt64Coin(world.Denom, 50), sdk.NewInt64Coin("atest", 50)} { // some free coins on top
+		if _, err := w.RunMsg(w.Ctx(), banktypes.NewMsgSend(F, V, sdk.NewCoins(c))); err != nil {
+			panic(err)
+		}
+	}
+	lock, vest := rm.FromPeriods(t0, lockPs), rm.FromPeriods(t0, vestPs)
+	locked := func(d string) sdkmath.Int {
+		t := w.Header.Time.Unix()
+		orig := sdkmath.NewIntFromBigInt(vest.Total().Get(d))
+		ve := sdkmath.NewIntFromBigInt(vest.Read(t).Get(d))
+		un := sdkmath.NewIntFromBigInt(lock.Read(t).Get(d))
+		return orig.Sub(sdkmath.MinInt(ve, un))
+	}
+	bal := func(d string) sdkmath.Int { return w.App.BankKeeper.GetBalance(w.Ctx(), V, d).Amount }
+	var ops []engine.Op
+	for _, k := range []int64{500, 1000, 1001, 3000, 4000, 9999, 10000} {
+		k := k
+		ops = append(ops, engine.Op{Name: fmt.Sprintf("time(+%d)", k), Apply: func(w *world.World, p []string, res *engine.Result) string {
+			if t0+k <= w.Header.Time.Unix() {
+				return "skip"
+			}
+			w.Header.Time = time.Unix(t0+k, 0).UTC()
+			w.App.BaseApp.VerifSetDeliverCtx(w.App.BaseApp.VerifDeliverCtx().WithBlockHeader(w.Header))
+			return "ok"
+		}})
+	}
+	for _, d := range []string{world.Denom, "atest"} {
+		for _, cls := range []string{"1", "sp", "sp+1", "bal"} {
+			d, cls := d, cls
+			ops = append(ops, engine.Op{Name: fmt.Sprintf("send(%s,%s)", d, cls), Apply: func(w *world.World, p []string, res *engine.Result) string {
+				sp := bal(d).Sub(locked(d))
+				if sp.IsNegative() {
+					sp = sdkmath.ZeroInt()
+				}
+				a := map[string]sdkmath.Int{"1": sdkmath.NewInt(1), "sp": sp, "sp+1": sp.AddRaw(1), "bal": bal(d)}[cls]
+				if !a.IsPositive() {
+					return "skip"
+				}
+				_, err := w.RunMsg(w.Ctx(), banktypes.NewMsgSend(V, R, sdk.NewCoins(sdk.NewCoin(d, a))))
+				res.Evaluations++
+				if err != nil {
+					return "rejected"
+				}
+				for _, dd := range []string{world.Denom, "atest"} {
+					if b, l := bal(dd), locked(dd); b.LT(l) {
+						res.AddViolation(engine.Violation{Signature: "C08|path=send-two-denoms|breach=below-locked", What: "after a successful send the balance of a vesting denomination is below its locked amount (two denominations with crossed lockup / vesting order)",
+							Fixture: "two-denominations", Path: append([]string{"fixture=two-denominations"}, p...),
+							Detail: map[string]any{"denom": dd, "balance": b.String(), "locked_ref": l.String(), "t_rel": w.Header.Time.Unix() - t0}})
+					}
+				}
+				res.Nontrivial[fmt.Sprintf("two-denoms|%s|%s|%d", d, cls, w.Header.Time.Unix()-t0)] = true
+				return "ok"
+			}})
+		}
+	}
+	sub := engine.NewResult(Prop)
+	e := &engine.Explorer{W: w, Res: sub, Stores: []string{"acc", "bank"}, MaxDepth: 3, Shard: shard, NShards: n,
+		Ops:   func(*world.World, int, []string) []engine.Op { return ops },
+		Extra: func(w *world.World) string { return fmt.Sprint(w.Header.Time.Unix()) }}
+	if tier == "thorough" {
+		e.MaxDepth = 4
+	}
+	e.Run()
+	for k, v := range sub.States {
+		res.States["two-denoms|"+k] = v
+	}
+	sub.States = map[string]int{}
+	res.Merge(sub)
+}
+
 func bounds(tier string) (int, time.Duration) {
 	if tier == "thorough" {
 		return 4, 25 * time.Minute
@@ -571,6 +714,7 @@ func Worker(shard, n int, tier string) *engine.Result {
 	res := engine.NewResult(Prop)
 	depth, dl := bounds(tier)
 	deadline := time.Now().Add(dl)
+	twoDenomWorker(res, tier, shard, n)
 	for i, sc := range schedules(tier) {
 		d := newDriver(tier, sc)
 		sub := engine.NewResult(Prop)
